@@ -150,10 +150,12 @@ func (prop) Generate(r *prng.Rand, phase string) any {
 	}
 	cfg := mgeom.SwarmCfg(r, []int{1, 2, 3, 4})
 	cfg.FloatMode = r.Intn(2)
-	if cfg.MaxCoords > 8 {
+	if cfg.MaxCoords > 8 && cfg.ExactCoords == 0 {
 		cfg.MaxCoords = 8
 	}
 	if phase == "trunc" {
+		// every cut position is enumerated: keep the messages short
+		cfg.ExactCoords, cfg.ExactParts = 0, 0
 		if cfg.MaxCoords > 4 {
 			cfg.MaxCoords = 4
 		}
